@@ -127,6 +127,9 @@ func runPeek(rc *RunCtx) *Violation {
 		m.elide[lexer.EOF] = true
 		elideList = append(elideList, lexer.EOF)
 	}
+	if len(elideList) > 0 && simrt.Choose(4) == 1 {
+		elideList = append(elideList, elideList[0]) // a duplicate entry must change nothing
+	}
 	// with few elided types, bias token types towards them so that elided runs appear
 	pos := lexer.Position{Filename: "peek", Line: 1, Column: 1}
 	flags := make([]byte, 0, n+1)
@@ -291,7 +294,11 @@ func runPeek(rc *RunCtx) *Violation {
 		case "Cursor":
 		case "MakeCheckpoint":
 			if len(ckpts) < 16 {
-				ckpts = append(ckpts, peekCkpt{cp: c.pl.MakeCheckpoint(), raw: c.raw, owner: ci})
+				cp := c.pl.MakeCheckpoint()
+				if int(cp.RawCursor()) != c.raw || cp.Cursor() != m.cursor(c.raw) {
+					return viol(name, "checkpoint-contents", fmt.Sprintf("checkpoint taken at raw=%d reports RawCursor()=%d Cursor()=%d, want %d and %d", c.raw, cp.RawCursor(), cp.Cursor(), c.raw, m.cursor(c.raw)))
+				}
+				ckpts = append(ckpts, peekCkpt{cp: cp, raw: c.raw, owner: ci})
 			}
 		case "LoadCheckpoint":
 			if len(ckpts) == 0 {
